@@ -595,8 +595,200 @@ func f%d() {
 """ % (n, t, t, n, t, n, n, t, n, t, n, t, n, n, t, n, n, t, n, n, lit(r, t), lit(r, t), lit(r, t), lit(r, t), n, n, n, lit(r, t), lit(r, t), n)
 
 
+
+def s_selector_effects(r, n):
+    """operands of the form <call with side effects>.field (or method call / indexed call result) inside operations
+    whose JavaScript pattern mentions the operand several times: 64-bit and complex arithmetic / comparison / negation /
+    conversion, and run-time-checked indexing. An evaluation counter shows how often the base was evaluated."""
+    ops = []
+    pool = [
+        ('a%d := nx%d().v %s %s\n\tprintln("i64", int32(a%d>>33), int32(a%d), calls%d)', lambda: (r.choice(["+", "-", "&", "|", "^"]), "int64(%d)" % r.randint(1, 1 << 34))),
+        ('a%d := nx%d().u %s %s\n\tprintln("u64", uint32(a%d>>32), uint32(a%d), calls%d)', lambda: (r.choice(["+", "-", "&", "|", "^"]), "uint64(%d)" % r.randint(1, 1 << 34))),
+        ('a%d := nx%d().v %s %s\n\tprintln("cmp64", a%d, a%d, calls%d)', lambda: (r.choice(["<", "<=", ">", ">=", "==", "!="]), "int64(%d)" % (r.randint(1, 6) << 33))),
+        ('a%d := nx%d().u %s %s\n\tprintln("cmpu64", a%d, a%d, calls%d)', lambda: (r.choice(["<", "<=", ">", ">=", "==", "!="]), "uint64(%d)" % r.randint(1, 6))),
+        ('a%d := nx%d().c %s %s\n\tprintln("cplx", int32(real(a%d)), int32(imag(a%d)), calls%d)', lambda: (r.choice(["+", "-", "*"]), "complex(%d, %d)" % (r.randint(1, 5), r.randint(0, 3)))),
+        ('a%d := nx%d().c %s %s\n\tprintln("cplxeq", a%d, a%d, calls%d)', lambda: (r.choice(["==", "!="]), "complex(%d, 1)" % r.randint(1, 6))),
+        ('a%d := -nx%d().v %s %s\n\tprintln("neg64", int32(a%d>>33), int32(a%d), calls%d)', lambda: ("+", "0")),
+        ('a%d := uint64(nx%d().v) %s %s\n\tprintln("conv64", uint32(a%d>>33), uint32(a%d), calls%d)', lambda: ("+", "1")),
+        ('a%d := nx%d().xs[k] %s %s\n\tprintln("index", a%d, a%d, calls%d)', lambda: (r.choice(["+", "-", "*"]), str(r.randint(1, 9)))),
+        ('a%d := nx%d().arr[k%%3] %s %s\n\tprintln("aindex", a%d, a%d, calls%d)', lambda: (r.choice(["+", "-"]), str(r.randint(1, 9)))),
+        ('a%d := nxv%d().v %s nx%d().v\n\tprintln("both64", int32(a%d>>33), int32(a%d), calls%d)', None),
+        ('a%d := mk%d().get().u %s %s\n\tprintln("chain", uint32(a%d), uint32(a%d>>32), calls%d)', lambda: (r.choice(["+", "^", "-"]), "uint64(%d)" % r.randint(1, 99))),
+    ]
+    for j in range(r.randint(4, 7)):
+        tpl, mk = r.choice(pool)
+        if mk is None:
+            ops.append("\t" + tpl % (j, n, r.choice(["+", "-", "^"]), n, j, j, n))
+        else:
+            o, c = mk()
+            ops.append("\t" + tpl % (j, n, o, c, j, j, n))
+    return "selector-side-effects", """type box%d struct {
+	v   int64
+	u   uint64
+	c   complex128
+	xs  []int32
+	arr [3]int32
+}
+
+var calls%d int32
+
+func nx%d() *box%d {
+	calls%d++
+	return &box%d{v: int64(calls%d) << 33, u: uint64(calls%d), c: complex(float64(calls%d), 1),
+		xs: []int32{calls%d * 10, calls%d * 20, calls%d * 30}, arr: [3]int32{calls%d, calls%d + 1, calls%d + 2}}
+}
+
+func nxv%d() box%d { return *nx%d() }
+
+type mk%dT struct{ b *box%d }
+
+func (m mk%dT) get() *box%d { calls%d += 100; return m.b }
+func mk%d() mk%dT           { return mk%dT{nx%d()} }
+
+func f%d() {
+	k := %d
+%s
+	println(k, calls%d)
+}
+""" % (n, n, n, n, n, n, n, n, n, n, n, n, n, n, n, n, n, n, n, n, n, n, n, n, n, n, n, n, r.randint(0, 2), "\n".join(ops), n)
+
+
+def s_overlap_copy(r, n):
+    """copy / append between overlapping ranges of ONE backing array whose elements are structs or arrays
+    (insert, delete, shift idioms), in both directions, with scalar slices for reference"""
+    ln = r.randint(5, 8)
+    steps = []
+    for j in range(r.randint(4, 7)):
+        c = r.random()
+        i, k = r.randint(0, ln - 2), r.randint(0, ln - 2)
+        if c < 0.3:
+            steps.append("\tprintln(copy(s[%d:], s[%d:]), copy(a[%d:], a[%d:]), copy(b[%d:], b[%d:]))" % (i, k, i, k, i, k))
+        elif c < 0.5:
+            m = r.randint(1, ln - 1)
+            steps.append("\tprintln(copy(s[%d:], s[:%d]), copy(a[%d:], a[:%d]), copy(b[%d:], b[:%d]))" % (i, m, i, m, i, m))
+        elif c < 0.7:
+            steps.append("\ts = insP%d(s, %d, P%d{%d, %d})\n\ta = insA%d(a, %d, [2]int32{%d, %d})" % (n, i, n, 90 + j, j, n, i, 90 + j, j))
+        elif c < 0.85:
+            steps.append("\ts = append(s[:%d], s[%d:]...)\n\ta = append(a[:%d], a[%d:]...)\n\tb = append(b[:%d], b[%d:]...)" % (min(i, k), max(i, k), min(i, k), max(i, k), min(i, k), max(i, k)))
+        else:
+            lo, hi = min(i, k), max(i, k) + 1
+            steps.append("\ts = append(s[:%d], s[%d:%d]...)\n\ta = append(a[:%d], a[%d:%d]...)\n\tb = append(b[:%d], b[%d:%d]...)" % (i, lo, hi, i, lo, hi, i, lo, hi))
+        steps.append("\tshow%d(s, a, b)" % n)
+    return "overlapping-copy", """type P%d struct{ x, y int32 }
+
+func show%d(s []P%d, a [][2]int32, b []int32) {
+	var h1, h2, h3 int32
+	for i, e := range s {
+		h1 = h1*31 + e.x*int32(i+1) + e.y
+	}
+	for i, e := range a {
+		h2 = h2*31 + e[0]*int32(i+1) + e[1]
+	}
+	for i, e := range b {
+		h3 = h3*31 + e*int32(i+1)
+	}
+	println(len(s), len(a), len(b), h1, h2, h3)
+}
+
+func insP%d(s []P%d, i int, p P%d) []P%d {
+	s = append(s, P%d{})
+	copy(s[i+1:], s[i:])
+	s[i] = p
+	return s
+}
+
+func insA%d(s [][2]int32, i int, p [2]int32) [][2]int32 {
+	s = append(s, [2]int32{})
+	copy(s[i+1:], s[i:])
+	s[i] = p
+	return s
+}
+
+func f%d() {
+	s := make([]P%d, %d, %d)
+	a := make([][2]int32, %d, %d)
+	b := make([]int32, %d, %d)
+	for i := range s {
+		s[i] = P%d{int32(i + 1), int32(10 * i)}
+		a[i] = [2]int32{int32(i + 1), int32(10 * i)}
+		b[i] = int32(i + 1)
+	}
+	show%d(s, a, b)
+%s
+}
+""" % (n, n, n, n, n, n, n, n, n, n, n, ln, ln + 6, ln, ln + 6, ln, ln + 6, n, n, "\n".join(steps))
+
+
+def s_named_captured(r, n):
+    """named results captured by a closure or a pointer that outlives the call; explicit `return x, y` (also swapped,
+    also of expressions over the results), bare returns, with and without defer"""
+    t = r.choice(T32)
+    c1, c2, c3 = lit(r, t), lit(r, t), lit(r, t)
+    swap_ret = r.choice(["b, a, read", "a + b, a, read", "b, b - a, read", "a, b, read"])
+    defer_line = "\tdefer func() { n++ }()\n" if r.random() < 0.3 else ""
+    return "named-results-captured", """func cnt%d() (n %s, get func() %s) {
+%s	get = func() %s { return n }
+	n = %s
+	return %s, get
+}
+
+func adr%d() (x %s, p *%s) {
+	p = &x
+	x = %s
+	return %s, p
+}
+
+func swp%d() (a, b %s, read func() (%s, %s)) {
+	a, b = %s, %s
+	read = func() (%s, %s) { return a, b }
+	if a == b {
+		return
+	}
+	return %s
+}
+
+type acc%d struct{ total %s }
+
+func (m *acc%d) sum(xs ...%s) (total %s, report func() %s) {
+	report = func() %s { return total + m.total }
+	for _, x := range xs {
+		m.total += x
+	}
+	if len(xs) == 0 {
+		return
+	}
+	return m.total * 2, report
+}
+
+func f%d() {
+	v, get := cnt%d()
+	println(v, get())
+	w, p := adr%d()
+	println(w, *p)
+	*p += 2
+	println(*p)
+	x, y, read := swp%d()
+	rx, ry := read()
+	println(x, y, rx, ry)
+	m := &acc%d{}
+	t, rep := m.sum(%s, %s)
+	println(t, rep())
+	_, rep0 := m.sum()
+	println(rep0 == nil)
+	fl := func() (q %s, g func() %s) {
+		g = func() %s { q++; return q }
+		return %s, g
+	}
+	q, g := fl()
+	println(q, g(), g())
+}
+""" % (n, t, t, defer_line, t, c1, ie(r, t, ["n"], 1), n, t, t, c2, ie(r, t, ["x"], 1), n, t, t, t, c1, c3, t, t, swap_ret,
+       n, t, n, t, t, t, t, n, n, n, n, n, lit(r, t), lit(r, t), t, t, t, c3)
+
+
 SNIPPETS = [s_switch, s_goto, s_labels, s_arrays, s_structs, s_slices, s_maps, s_strings, s_closures, s_methods, s_named, s_multi, s_multi_dep, s_string_oob,
-            s_shadow, s_consts, s_floats, s_opassign_ints, s_typeswitch, s_value_receivers, s_floats, s_value_receivers]
+            s_shadow, s_consts, s_floats, s_opassign_ints, s_typeswitch, s_value_receivers, s_floats, s_value_receivers, s_selector_effects, s_overlap_copy, s_named_captured,
+            s_selector_effects, s_overlap_copy, s_named_captured]
 
 
 def generate_batch(r, ngroups):
